@@ -444,3 +444,23 @@ def run(ctx):
     check_add(ctx, ctx.repo, cls)
     check_truncate(ctx, ctx.repo, cls)
     check_ownership(ctx, ctx.repo, cls)
+    # the members are mutually non-dominated *under the archive's comparator*: the comparator the archive is built with by
+    # default (and the Pareto comparator handed to it by the swarm algorithms) must be the strict partial order of C01
+    check_comparators(ctx, ctx.repo, cls)
+
+
+def check_comparators(ctx, repo, cls):
+    from . import c01
+    from .c18 import SubCtx
+    from ..loader import Repo
+    ctx.rule("R6", "the comparators an archive is built with satisfy the comparator rules of C01")
+    init = cls.methods.get("__init__")
+    names = set()
+    for n_ in ast.walk(init) if init is not None else ():
+        if isinstance(n_, ast.Call) and access_path(n_.func) in ("EpsilonDominance", "ParetoDominance"):
+            names.add(access_path(n_.func))
+    names |= {"ParetoDominance"}
+    light = Repo(repo.root, comp=False)
+    for nm in sorted(names):
+        if light.has_cls(nm):
+            c01.analyse(SubCtx(ctx, "R6", prefix="archive comparator %s: " % nm), light, nm, nm == "EpsilonDominance")
